@@ -194,7 +194,6 @@ func seamSucceeds(c *Case) bool {
 	return lastRunOK
 }
 
-
 // runMidSplit: see engineFull. Returns a violation message (or a machinery problem).
 func runMidSplit(pods, ctrs []int, stopAfter int, held bool) (msg string, machinery bool) {
 	rt, err := full.NewRuntime()
